@@ -1,4 +1,6 @@
 import CV.Proofs.CoreMatch
+import CV.Proofs.InvCacheMain
+import CV.Proofs.InvForest
 /-
 C01 - matching layer.  `collect` is the model of `Manager.getHandlers`; the dispatcher calls
 it with fuel `comps.length + 1` whenever it rebuilds a cache entry.  These theorems say that
@@ -7,7 +9,7 @@ its result is exactly the handler set of the property statement, each handler on
 detaching - is a machine-level invariant; see DESIGN.md section 0.4.)
 -/
 namespace CV.C01
-open CV.Core
+open CV.Core CV.Core.Live
 
 /-- a handler is collected for `(name, target)` from `root` **iff** it belongs to a component
     reachable from `root` through at most `n` child links and either is installed for `name`
@@ -36,5 +38,153 @@ example :
                               { parent := 1, root := 0, htab := [(some ⟨1, []⟩, 0)] }],
                     hs := [{ owner := 2, names := [⟨1, []⟩], chan := none, kind := .user 0 }] }
     collect s 4 0 ⟨1, []⟩ (.named 7) = [0] := by decide
+
+/-! ### cache layer: the dispatcher never uses a stale handler set
+
+`_dispatcher` memoises the sorted handler list per `(event name, channels)` in the `_cache` of
+the component that dispatches and rebuilds it when that component's `_cache_needs_refresh` is
+set.  `freshHandlers s r name chans` (CV/Proofs/InvCacheBase.lean) is what a rebuild computes
+before the framework's fallback handler is appended: `collect` for every channel, concatenated
+and sorted by priority; by `collect_iff` that is the handler set of the property statement.
+
+Hypotheses on the initial state: `InitForest s0` (every component a detached root; it gives the
+forest invariant of C07 - `FInv.reach` in CV/Proofs/InvForest.lean, i.e. `CV.C07.forest_inv` -, from which the proof uses: all components below a root carry
+that root in their `root` field, so `x.root._cache_needs_refresh = True` flags the component that
+will dispatch for `x`); further (CV/Proofs/InvCacheMain.lean): `InitHandlers s0` - whatever is
+installed in a handler table is a declared handler record and not one of the two framework
+fallback records; `InitCache s0` - nothing has been dispatched yet (all caches empty).
+
+Machine-level theorems, for every configuration of every driver session (`Reach`): cached lists
+are live (`cache_live_partial`, `cache_live_settled`), hence the list the dispatcher hands to the
+handler loop is `freshHandlers` of the state at that very moment (`dispatch_uses_live_set`), i.e.
+exactly the statement's set, by priority (`dispatch_exact_set`). -/
+
+/-- every component that is its own parent (a root) and is not exempted by `E` either has
+    `_cache_needs_refresh` set or caches only live lists -/
+def CacheInvBut (E : Nat → Prop) (s : St) : Prop :=
+  ∀ c, c < s.comps.length → (s.comp c).parent = c → ¬ E c →
+    (s.comp c).dirty = true ∨
+    ∀ key hs, (key, hs) ∈ (s.comp c).cache → nonFallback s hs = freshHandlers s c key.1 key.2
+
+def CacheInv (s : St) : Prop := CacheInvBut (fun _ => False) s
+
+/-- **Cache liveness.**  In every reachable configuration every root component has its refresh
+    flag set or caches exactly what a rebuild would compute now - except the one component `x`
+    that is in the middle of `_do_prepare_unregister_complete` (`detaching c x`: it has been made
+    its own root by `_updateRoot(self)` and `self._cache_needs_refresh = True` is the very next
+    step).
+
+    Full statement wanted: `∀ c, Reach s0 c → CacheInv c.st`.  It is false in exactly that one
+    kind of configuration (`cache_live_window_witness`): between the two steps `invoke
+    prepUnregComplete` (detach + `_updateRoot`) and `prepUnregFin` (set the flag) the detached
+    component is a root with a possibly stale cache and no flag.  The same holds between the two
+    Python statements; no dispatch can happen there (the flag is set by the next step), so the
+    exemption is invisible to `dispatch_uses_live_set`, which is proved at full strength. -/
+theorem cache_live_partial (s0 : St) (h0 : InitForest s0) (hH : InitHandlers s0) (hC : InitCache s0) :
+    ∀ c, Reach s0 c → CacheInvBut (detaching c) c.st := by
+  have hF : ∀ c, Reach s0 c → ForestInv c.st := fun c hc => (FInv.reach h0 c hc).forest
+  intro c hc x hx hpar hE
+  have hlive := reach_live (K.init s0 hH hC) (fun c hc => (hF c hc).cacheFacts) c hc
+  have hroot : (c.st.comp x).root = x := by
+    rw [(hF c hc).rootOk x hx, if_pos hpar]
+  exact hlive x hroot hE
+
+/-- ... in particular, at full strength, whenever no component is in the middle of being
+    detached (every configuration whose top frame is not `prepUnregFin`) -/
+theorem cache_live_settled (s0 : St) (h0 : InitForest s0) (hH : InitHandlers s0) (hC : InitCache s0) :
+    ∀ c, Reach s0 c → (∀ x, ¬ detaching c x) → CacheInv c.st := by
+  intro c hc hno x hx hpar _
+  exact cache_live_partial s0 h0 hH hC c hc x hx hpar (hno x)
+
+/-- **Never a stale set.**  When `_dispatcher(e)` runs on a component `r` that is the top of its
+    tree (`r.root = r`; by the forest invariant this is the same as `r.parent = r`, and every `r`
+    that `flush`/`tick` dispatch on is `x.root` for some `x`) and `e` is not cancelled, the
+    handler list `hs` the step puts into the handler loop satisfies: `hs` minus fallback records
+    = `freshHandlers` of the state the loop starts in.  This holds however `r` got there - also
+    for a component that was a root, became a child, and was detached again. -/
+theorem dispatch_uses_live_set (s0 : St) (h0 : InitForest s0) (hH : InitHandlers s0) (hC : InitCache s0)
+    (c : Cfg) (hc : Reach s0 c) (r e remaining : Nat) (k : List Frame)
+    (hst : c.stack = .dispatcher r e remaining :: k) (hx : c.exn = none)
+    (hr : (c.st.comp r).root = r) (hcan : (c.st.ev e).cancelled = false) :
+    ∃ hs, (step c).stack = .hLoop r e hs false .none :: k ∧
+      nonFallback (step c).st hs = freshHandlers (step c).st r (c.st.ev e).name (c.st.ev e).chans :=
+  dispatcher_step_live (K.init s0 hH hC) (fun c hc => (FInv.reach h0 c hc).forest.cacheFacts)
+    c hc r e remaining k hst hx hr hcan
+
+/-- **Exactly the statement's set.**  In the situation of `dispatch_uses_live_set`: a non-fallback
+    handler is in the list handed to the handler loop **iff** it belongs to a component reachable
+    from `r` through child links and is installed for the event's name (or for all events) with a
+    matching channel, or is a global handler there - for one of the event's channels; and the
+    list is sorted by descending priority.  Handlers added or removed and components registered
+    or unregistered before this moment are therefore always reflected. -/
+theorem dispatch_exact_set (s0 : St) (h0 : InitForest s0) (hH : InitHandlers s0) (hC : InitCache s0)
+    (c : Cfg) (hc : Reach s0 c) (r e remaining : Nat) (k : List Frame)
+    (hst : c.stack = .dispatcher r e remaining :: k) (hx : c.exn = none)
+    (hr : (c.st.comp r).root = r) (hcan : (c.st.ev e).cancelled = false) :
+    ∃ hs, (step c).stack = .hLoop r e hs false .none :: k ∧
+      (∀ h, h ∈ nonFallback (step c).st hs ↔
+        ∃ ch, ch ∈ (c.st.ev e).chans ∧ ∃ d, ReachIn (step c).st (step c).st.comps.length r d ∧
+          matchesAt (step c).st d (c.st.ev e).name ch h) ∧
+      (nonFallback (step c).st hs).Pairwise
+        (fun a b => ((step c).st.hs.getD a dfltHandler).prio ≥ ((step c).st.hs.getD b dfltHandler).prio) := by
+  obtain ⟨hs, h1, h2⟩ := dispatch_uses_live_set s0 h0 hH hC c hc r e remaining k hst hx hr hcan
+  refine ⟨hs, h1, ?_, ?_⟩
+  · intro h; rw [h2]; exact mem_freshHandlers _ _ _ _ _
+  · rw [h2]; exact freshHandlers_sorted _ _ _ _
+
+/-- non-vacuity of the `Init…` hypotheses: one component with one installed user handler -/
+example :
+    let s : St := { comps := [{ parent := 0, root := 0, htab := [(some ⟨1, []⟩, 0)] }],
+                    hs := [{ owner := 0, names := [⟨1, []⟩], chan := none, kind := .user 0 }] }
+    InitHandlers s ∧ InitCache s ∧ InitForest s :=
+  ⟨plain_tables_of_bounded _ (by decide +kernel), caches_empty_of_bounded _ (by decide +kernel),
+   by unfold InitForest; decide +kernel⟩
+
+/-! ### the exempted configuration really fails (witness) -/
+
+/-- one run of the driver: start `op` in state `s` and take `n` steps -/
+abbrev runOp (s : St) (op : ExtOp) (n : Nat) : Cfg := runN n (startOf (envChange s 0 []) op)
+
+/-- witness state: two components with their built-in `prepare_unregister_complete` handlers,
+    a declared user handler 2 of component 1 for event name 1 -/
+def v0 : St :=
+  { comps := [{ parent := 0, root := 0, htab := [(some (Name.prepareUnregister.child sfxComplete), 0)] },
+              { parent := 1, root := 1, htab := [(some (Name.prepareUnregister.child sfxComplete), 1)] }],
+    hs := [{ owner := 0, names := [Name.prepareUnregister.child sfxComplete], chan := some (.inst 0), kind := .prepUnregComplete },
+           { owner := 1, names := [Name.prepareUnregister.child sfxComplete], chan := some (.inst 1), kind := .prepUnregComplete },
+           { owner := 1, names := [⟨1, []⟩], chan := none, kind := .user 0 }],
+    progs := [[]],
+    tmpls := [{ name := ⟨1, []⟩ }] }
+/-- component 1 dispatches event 1 as a root (cache entry `[]`) ... -/
+abbrev vc1 : Cfg := runOp v0 (.doAct 1 (.fire 0 none 0 false)) 20
+abbrev vc2 : Cfg := runOp vc1.st (.flush 1) 40
+/-- ... is registered under 0, gets handler 2 (the flag goes to root 0) ... -/
+abbrev vc3 : Cfg := runOp vc2.st (.doAct 1 (.reg 1 0)) 20
+abbrev vc4 : Cfg := runOp vc3.st (.doAct 1 (.addH 2)) 20
+/-- ... and is unregistered; the second flush reaches `_do_prepare_unregister_complete` -/
+abbrev vc5 : Cfg := runOp vc4.st (.doAct 1 (.unreg 1)) 20
+abbrev vc6 : Cfg := runOp vc5.st (.flush 0) 200
+abbrev vc7 : Cfg := runOp vc6.st (.flush 0) 5
+
+/-- why `cache_live_partial` carries the exemption: in the configuration between the detach step
+    and `self._cache_needs_refresh = True` the detached component 1 is a root whose cache still
+    holds the list of its first life (`[]`, a rebuild gives `[2]`) and its flag is not yet set.
+    The flag is set by the very next step, so no dispatch can see this. -/
+theorem cache_live_window_witness :
+    InitHandlers v0 ∧ InitCache v0 ∧ InitForest v0 ∧ Reach v0 vc7 ∧ detaching vc7 1 ∧ ¬ CacheInv vc7.st := by
+  refine ⟨plain_tables_of_bounded v0 (by decide +kernel), caches_empty_of_bounded v0 (by decide +kernel),
+    by unfold InitForest; decide +kernel, ?_, detaching_of_B _ _ (by decide +kernel), ?_⟩
+  · have h1 : Reach v0 vc1 := Reach.runN (Reach.init 0 [] _) 20
+    have h2 : Reach v0 vc2 := Reach.runN (Reach.next 0 [] _ h1 (by decide +kernel)) 40
+    have h3 : Reach v0 vc3 := Reach.runN (Reach.next 0 [] _ h2 (by decide +kernel)) 20
+    have h4 : Reach v0 vc4 := Reach.runN (Reach.next 0 [] _ h3 (by decide +kernel)) 20
+    have h5 : Reach v0 vc5 := Reach.runN (Reach.next 0 [] _ h4 (by decide +kernel)) 20
+    have h6 : Reach v0 vc6 := Reach.runN (Reach.next 0 [] _ h5 (by decide +kernel)) 200
+    exact Reach.runN (Reach.next 0 [] _ h6 (by decide +kernel)) 5
+  · intro h
+    rcases h 1 (by decide +kernel) (by decide +kernel) (fun f => f) with hd | he
+    · revert hd; decide +kernel
+    · have := he (⟨1, []⟩, [.star]) [] (by decide +kernel)
+      revert this; decide +kernel
 
 end CV.C01
